@@ -165,7 +165,7 @@ def check(tier, seed):
         "evaluations": totals["evaluations"],
         "distinct_nontrivial": totals["distinct_nontrivial"],
         "rule": ("A case is one trace = (writer kind, initial capacity, prefill, the buffer owner's grow-outcome vector, operation list). "
-                 "Phase 'enumerated' walks every chunk-length sequence over {0,1,2,3,5} up to the tier's length x initial capacities x the complete tree of "
+                 "Phase 'enumerated' walks every sequence over chunk lengths {0,1,2,3,5} plus a single-character write_char (fixed and Rust-owned writers: plus flush) up to the tier's length x initial capacities x the complete tree of "
                  "grow outcomes {fail, exact+relocate, exact+in-place, +1 relocate, +4 in-place} actually requested by the code (a leaf = one complete fault sequence); "
                  "phase 'sampled' draws swarm-configured traces from xoshiro128**(VERIF_SEED, run); phase 'miri' executes the first trace of each new shape. "
                  "distinct = FNV-64 of the trace text without its seed/run header, summed over phases; non-trivial = at least one write and at least one growth decision, "
